@@ -27,6 +27,14 @@ def corrupt_event(ev, rnd):
     return e
 
 
+def corrupt_vm_event(ev, rnd):
+    e = copy.deepcopy(ev)
+    if 'expect' not in e:
+        return None
+    e['expect']['out'] = e['expect']['out'] + [122]
+    return e
+
+
 def run(ctx):
     q = ctx.quick
     ctx.rule = ('a case is one AWK program (plus 0-9 spellings the reference semantics proves equivalent, each run too) from '
@@ -65,3 +73,24 @@ def run(ctx):
         ctx.add_failure('C01/random/' + ev.get('shape', 'program'),
                         f"program recorded from the real interpreter rejected by Trace_AwkSem at event {r['line']}",
                         case=case, expected=exp, observed=ev.get('obs'))
+    # translation validation of the real compiler inside TLC: the byte code the real compiler emitted for the
+    # generated programs (a sample in the quick tier) and for the recorded random programs is run on the VM
+    # specification (VM.tla) and must give the reference outcome.  A rejection localises a disagreement already
+    # reported above to the compiler (VM.tla agrees with the real VM on the code, the code is wrong); a rejection
+    # WITHOUT a disagreement of the real run means VM.tla is out of date: exit 2, never a violation.
+    stride = 12 if q else 2
+    ctx.harness(['C01', 'vmdump', '-in', ctx.path('cases.ndjson'), '-stride', str(stride), '-out', ctx.path('vm1.ndjson')])
+    ctx.harness(['C01', 'vmdump', '-in', ctx.path('trace.ndjson'), '-limit', str(150 if q else 1500), '-out', ctx.path('vm2.ndjson')])
+    with open(ctx.path('vmcases.ndjson'), 'w') as f:
+        f.write(open(ctx.path('vm1.ndjson')).read())
+        f.write(open(ctx.path('vm2.ndjson')).read())
+    vmrej = ctx.validate_traces('MC_VM', 'MC_VM', 'vmcases.ndjson', label='mc-vm', corrupt_event=corrupt_vm_event, timeout=3000)
+    ctx.cov['vm_translation_validation'] = {'rejected': len(vmrej)}
+    if vmrej and not ctx.failures:
+        ev = vmrej[0]['trace'][vmrej[0]['pos']]
+        raise MachineryError('VM.tla, run on the real compiler\'s code, disagrees with the reference outcome for ' + ev.get('name', '?') +
+                             ' although the real run agrees: the VM specification is out of date (not a verdict on the code)')
+    if vmrej:
+        ctx.notes.append('the disagreement is reproduced by VM.tla on the real compiler\'s byte code for: ' +
+                         ', '.join(sorted({x['trace'][x['pos']].get('name', '?') for x in vmrej})[:10]) +
+                         ' -- the emitted code (compiler), not the real VM, is at fault there')
